@@ -46,6 +46,8 @@ def dag(b, e, depth=0):
             if inner[0] == "const":
                 return splat_const(inner[1])
             return dag(b, inner, depth + 1)
+        if e[1] == "tuple":
+            return ("tuple",) + tuple(dag(b, x, depth + 1) for x in e[2])
         return ("agg", e[1])
     if k == "call":
         bb, path, args = e[1], e[2], e[3]
@@ -320,6 +322,15 @@ def outer_loads(ctx, r, F):
         ctx.ob(r, (path.rsplit("::", 2)[-2] + "::" + path.rsplit("::", 1)[-1], "loads-cover-body"), ok and cover,
                "%s loads vector chunks %s / %s of its two %d-byte bodies (vector width %d, loop ranges %s); reference every chunk %s exactly once from each" % (
                    path, sorted(per[1]), sorted(per[2]), size, W, rngs, sorted(want)), cfg=F.key, where=b.where())
+        # lane-reduction shuffles: every backend reduces with the immediates 0b11_10_11_10 then 0b01_01_01_01
+        imms = []
+        for i, blk in enumerate(b.blocks):
+            t = blk["term"]
+            if t["t"] == "call" and (t["callee"].get("path") or "").endswith("shuffle_epi32"):
+                imms.append(imm_of(b, i))
+        okimm = len(imms) >= 2 and len(imms) % 2 == 0 and all(imms[j:j + 2] == [0xEE, 0x55] for j in range(0, len(imms), 2))
+        ctx.ob(r, (path.rsplit("::", 2)[-2] + "::" + path.rsplit("::", 1)[-1], "reduction-shuffles"), okimm,
+               "%s reduces lanes with shuffle immediates %s; reference pairs (0xEE, 0x55)" % (path, [hex(x) if x is not None else None for x in imms]), cfg=F.key, where=b.where())
         # kernel called on pairs (x_i, y_i) of the same chunk, and every result is accumulated
         kern = BODY_KERNELS[fam]
         pairs_ok = True
